@@ -242,9 +242,30 @@ def job_file_bins(tier):
     return harness.plain_job("waveform_params.hdf5 frequency bins", file_bins_job)
 
 
+def _radio_sampler(N):
+    import math
+
+    def s(rng):
+        v = {"k": float(rng.uniform(0.5, 3)), "iono_factor": float(rng.uniform(0.1, 1))}
+        Re = 6378.1
+        for i in range(N):
+            b = float(rng.uniform(0.01, 0.7))
+            l = float(10 ** rng.uniform(0, 2.7))
+            v[f"beta{i}"], v[f"lenDec{i}"] = b, l
+            v[f"altDec{i}"] = math.sqrt(Re * Re + l * l + 2 * Re * l * math.sin(b)) - Re
+            v[f"theta{i}"] = float(rng.uniform(0.2, 1.4))
+            v[f"pathLen{i}"] = float(rng.uniform(500, 3000))
+            v[f"E{i}"] = float(rng.uniform(0.1, 5))
+        for d in range(1, 4 * N + 2):
+            v[f"draw{d}"] = float(rng.uniform(-0.5, 0.5)) if d % 2 else float(rng.uniform(-6.2, 0))
+        return v
+
+    return s
+
+
 def job_eas_radio(N, det_alt, tier):
     return harness.run_job(f"EASRadio.__call__(N={N},detector {det_alt} km)", eas_radio_run(N, det_alt), timeout_ms=120000 if tier == "quick" else 600000, second=(tier == "thorough"),
-                           prune_timeout_ms=5000)
+                           prune_timeout_ms=5000, witness=(_radio_sampler(N), 80))
 
 
 def jobs(tier, seed):
